@@ -271,6 +271,14 @@ func (in *Interp) readFrame(fr *frame, src Value) Value {
 		case "eof":
 			in.emit("read.eof", in.connName(src))
 			return Tuple{(*Value)(nil), in.externalGlobalByName("io.EOF")}
+		case "raw":
+			// a stream that ends inside a BER element (the harness guarantees the bytes are
+			// not a complete element): asn1-ber's reader reports the truncation (§5.1)
+			in.emit("read.truncated", in.connName(src))
+			if n, ok := it.err.(Str).ConcreteLen(); ok && n == 0 {
+				return Tuple{(*Value)(nil), in.externalGlobalByName("io.EOF")}
+			}
+			return Tuple{(*Value)(nil), in.externalGlobalByName("io.ErrUnexpectedEOF")}
 		case "block":
 			// the client is idle: the read returns only through a deadline
 			in.emit("read.begin", in.connName(src))
@@ -381,6 +389,37 @@ func registerEnvIntrinsics() {
 		return nil, true
 	}
 
+	// ---- sync.Pool: Put keeps the item, Get hands out the most recently put item or calls New
+	// (the runtime may also drop items; handing them out again is the behaviour that matters) ----
+	I["(*sync.Pool).Put"] = func(in *Interp, fr *frame, args []Value) (Value, bool) {
+		o := in.sideObj(args[0], "pool")
+		if it, ok := args[1].(Iface); ok && it.T == nil {
+			return nil, true // Put(nil) is a no-op
+		}
+		o.items = append(o.items, args[1])
+		in.emit("pool.put", o.String())
+		return nil, true
+	}
+	I["(*sync.Pool).Get"] = func(in *Interp, fr *frame, args []Value) (Value, bool) {
+		o := in.sideObj(args[0], "pool")
+		if n := len(o.items); n > 0 {
+			v := o.items[n-1]
+			o.items = o.items[:n-1]
+			in.emit("pool.get", o.String())
+			return v, true
+		}
+		p, _ := args[0].(*Value)
+		if p != nil {
+			if st, ok := (*p).(Struct); ok {
+				pt := in.namedType("sync", "Pool").Underlying().(*types.Struct)
+				if nf := st[structFieldIndex(pt, "New")]; nf != nil && !isNilValue(nf) {
+					return in.call(fr, nf, nil, nil, false), true
+				}
+			}
+		}
+		return Iface{}, true
+	}
+
 	// ---- sync/atomic (sequentially consistent in the cooperative scheduler; atomic
 	// accesses are synchronisation, not race subjects: no rd/wr events) ----
 	for _, at := range []struct {
@@ -484,6 +523,74 @@ func registerEnvIntrinsics() {
 		in.side[cell] = o
 		return cell, true
 	}
+	// Peek: the next bytes of the stream without consuming them
+	I["(*bufio.Reader).Peek"] = func(in *Interp, fr *frame, args []Value) (Value, bool) {
+		o := in.sideObj(args[0], "bufreader")
+		if o == nil {
+			fr.tpanic("nil-deref", in.runtimeError("invalid memory address or nil pointer dereference"))
+		}
+		n := in.concreteInt(fr, args[1], "bufio.Reader.Peek")
+		if n < 0 {
+			return Tuple{Slice{}, in.newError(CStr("bufio: negative count"), nil)}, true
+		}
+		raw, t := in.rawConn(o.F["src"])
+		if raw == nil || t != nil {
+			in.unsupported("bufio.Reader.Peek on this reader")
+		}
+		for raw.n < len(raw.feed) && raw.feed[raw.n].kind == "call" {
+			it := raw.feed[raw.n]
+			raw.n++
+			in.call(fr, it.fn, nil, nil, false)
+		}
+		eof := in.externalGlobalByName("io.EOF")
+		if raw.F["closed"] != nil {
+			return Tuple{Slice{}, in.newError(CStr("read: use of closed network connection"), nil)}, true
+		}
+		if raw.n >= len(raw.feed) {
+			return Tuple{Slice{}, eof}, true
+		}
+		it := raw.feed[raw.n]
+		switch it.kind {
+		case "eof":
+			return Tuple{Slice{}, eof}, true
+		case "error":
+			return Tuple{Slice{}, it.err}, true
+		case "raw":
+			s := it.err.(Str)
+			ln, ok := s.ConcreteLen()
+			if !ok {
+				in.unsupported("Peek on raw bytes of symbolic length")
+			}
+			if ln >= n {
+				return Tuple{SymBytes{s: in.strSlice(fr, s, Int(0), Int(n))}, Iface{}}, true
+			}
+			return Tuple{SymBytes{s: s}, eof}, true
+		case "packet":
+			// a whole frame is waiting: at least 2 bytes; its first n bytes are left
+			// unconstrained here (over-approximation: any bytes)
+			in.peekSeq++
+			var bs []Value
+			for i := 0; i < n; i++ {
+				v := in.tt.Var(fmt.Sprintf("peek%d.b%d", in.peekSeq, i), BV(8))
+				bs = append(bs, in.fromTerm(v, types.Typ[types.Uint8]))
+			}
+			return Tuple{SymBytes{s: strFromValues(bs)}, Iface{}}, true
+		}
+		in.unsupported("bufio.Reader.Peek with a %s item pending", it.kind)
+		return nil, true
+	}
+	I["bufio.NewReaderSize"] = func(in *Interp, fr *frame, args []Value) (Value, bool) {
+		return I["bufio.NewReader"](in, fr, args[:1])
+	}
+	I["bufio.NewWriterSize"] = func(in *Interp, fr *frame, args []Value) (Value, bool) {
+		cell, _ := I["bufio.NewWriter"](in, fr, args[:1])
+		n := in.concreteInt(fr, args[1], "bufio.NewWriterSize")
+		if n <= 0 {
+			n = 4096
+		}
+		in.side[cell.(*Value)].n = n
+		return cell, true
+	}
 	// bytes already read ahead into a bufio.Reader: frames the client pipelined in
 	// the same segment (connection flag "pipelined")
 	I["(*bufio.Reader).Buffered"] = func(in *Interp, fr *frame, args []Value) (Value, bool) {
@@ -546,7 +653,7 @@ func registerEnvIntrinsics() {
 		}
 		// a write larger than the buffer, on an empty buffer, goes straight to the connection
 		if n, ok := o.str.ConcreteLen(); ok && n == 0 {
-			big := in.tt.BVCmp("bvugt", s.LenTerm(in.tt), in.tt.BVConst(4096, 64))
+			big := in.tt.BVCmp("bvugt", s.LenTerm(in.tt), in.tt.BVConst(uint64(bufSize(o)), 64))
 			if in.branch(boolVal(big), "bufio direct write") {
 				if e := in.connWrite(fr, o.F["dst"], s); !isNilValue(e) {
 					o.F["err"] = e
@@ -586,8 +693,11 @@ func registerEnvIntrinsics() {
 		o.F["src"] = args[1]
 		return nil, true
 	}
+	I["(*bufio.Writer).WriteString"] = func(in *Interp, fr *frame, args []Value) (Value, bool) {
+		return I["(*bufio.Writer).Write"](in, fr, args)
+	}
 	I["(*bufio.Writer).Size"] = func(in *Interp, fr *frame, args []Value) (Value, bool) {
-		return Int(4096), true
+		return Int(bufSize(in.sideObj(args[0], "bufwriter"))), true
 	}
 	I["(*bufio.Writer).Buffered"] = func(in *Interp, fr *frame, args []Value) (Value, bool) {
 		o := in.sideObj(args[0], "bufwriter")
@@ -596,9 +706,9 @@ func registerEnvIntrinsics() {
 	I["(*bufio.Writer).Available"] = func(in *Interp, fr *frame, args []Value) (Value, bool) {
 		o := in.sideObj(args[0], "bufwriter")
 		if n, ok := o.str.ConcreteLen(); ok {
-			return Int(4096 - n), true
+			return Int(bufSize(o) - n), true
 		}
-		return in.fromTerm(in.tt.BVOp("bvsub", in.tt.BVConst(4096, 64), o.str.LenTerm(in.tt)), types.Typ[types.Int]), true
+		return in.fromTerm(in.tt.BVOp("bvsub", in.tt.BVConst(uint64(bufSize(o)), 64), o.str.LenTerm(in.tt)), types.Typ[types.Int]), true
 	}
 	I["(*bufio.Writer).Flush"] = func(in *Interp, fr *frame, args []Value) (Value, bool) {
 		o := in.sideObj(args[0], "bufwriter")
@@ -828,6 +938,14 @@ func registerEnvIntrinsics() {
 		// uninterpreted total function of the node's content: (string, error)
 		key := in.nodeKey(p)
 		if r, ok := in.filterMemo[key]; ok {
+			return r, true
+		}
+		// exact text for the simple concrete shapes (present, and equality / >= / <= / ~=
+		// over two primitive children with a value of known length <= 8): go-ldap's
+		// DecompileFilter + EscapeFilter, validated natively by the cross-check
+		if txt, ok := in.simpleFilterText(fr, p); ok {
+			r := Tuple{txt, Iface{}}
+			in.filterMemo[key] = r
 			return r, true
 		}
 		in.filterSeq++
@@ -1151,4 +1269,120 @@ func timeIsZero(v Value) bool {
 	a, ok1 := st[0].(Int)
 	b, ok2 := st[1].(Int)
 	return ok1 && ok2 && a == 0 && b == 0
+}
+
+// bufSize: the capacity of a modelled bufio.Writer (default 4096).
+func bufSize(o *Obj) int {
+	if o != nil && o.n > 0 {
+		return o.n
+	}
+	return 4096
+}
+
+// simpleFilterText: go-ldap's rendering of a present filter or of an
+// attribute-value assertion whose node shape is concrete.
+func (in *Interp) simpleFilterText(fr *frame, p *Value) (Str, bool) {
+	if _, sym := in.symNode[p]; sym {
+		return Str{}, false
+	}
+	st := in.P.Ber.Type("Packet").Type().Underlying().(*types.Struct)
+	s, ok := (*p).(Struct)
+	if !ok {
+		return Str{}, false
+	}
+	id, ok := s[structFieldIndex(st, "Identifier")].(Struct)
+	if !ok || len(id) < 3 {
+		return Str{}, false
+	}
+	ints := make([]uint64, 3)
+	for i := 0; i < 3; i++ {
+		v, ok := id[i].(Int)
+		if !ok {
+			return Str{}, false
+		}
+		ints[i] = uint64(v)
+	}
+	// Identifier{ClassType, TagType, Tag}
+	tag := ints[2]
+	data := func(q *Value) (Str, bool) {
+		qs, ok := (*q).(Struct)
+		if !ok {
+			return Str{}, false
+		}
+		dp, _ := qs[structFieldIndex(st, "Data")].(*Value)
+		if dp == nil {
+			return Str{}, false
+		}
+		o := in.side[dp]
+		if o == nil {
+			return Str{}, true
+		}
+		return o.str, true
+	}
+	kids, _ := s[structFieldIndex(st, "Children")].(Slice)
+	switch tag {
+	case 7: // present
+		d, ok := data(p)
+		if !ok {
+			return Str{}, false
+		}
+		return concatStr(concatStr(CStr("("), d), CStr("=*)")), true
+	case 3, 5, 6, 8:
+		if kids.symLen != nil || kids.arr == nil || kids.n != 2 {
+			return Str{}, false
+		}
+		a, ok1 := (*kids.arr)[kids.off].(*Value)
+		v, ok2 := (*kids.arr)[kids.off+1].(*Value)
+		if !ok1 || !ok2 || a == nil || v == nil {
+			return Str{}, false
+		}
+		if _, sym := in.symNode[a]; sym {
+			return Str{}, false
+		}
+		if _, sym := in.symNode[v]; sym {
+			return Str{}, false
+		}
+		ad, ok1 := data(a)
+		vd, ok2 := data(v)
+		if !ok1 || !ok2 {
+			return Str{}, false
+		}
+		n, ok := vd.ConcreteLen()
+		if !ok || n > 8 {
+			return Str{}, false
+		}
+		opText := map[uint64]string{3: "=", 5: ">=", 6: "<=", 8: "~="}[tag]
+		out := concatStr(concatStr(CStr("("), ad), CStr(opText))
+		tt := in.tt
+		hexDigit := func(nib *Term) *Term {
+			// nib: BV8 value 0..15
+			return tt.Ite(tt.BVCmp("bvult", nib, tt.BVConst(10, 8)), tt.BVOp("bvadd", nib, tt.BVConst('0', 8)), tt.BVOp("bvadd", nib, tt.BVConst('a'-10, 8)))
+		}
+		u8 := types.Typ[types.Uint8]
+		for i := 0; i < n; i++ {
+			b := in.strByte(vd, i)
+			if c, ok := b.(Int); ok {
+				ch := byte(c)
+				if ch > 0x7f || ch == '(' || ch == ')' || ch == '\\' || ch == '*' || ch == 0 {
+					out = concatStr(out, CStr(fmt.Sprintf("\\%02x", ch)))
+				} else {
+					out = concatStr(out, CStr(string([]byte{ch})))
+				}
+				continue
+			}
+			bt := in.toTerm(b, u8)
+			must := tt.Or(tt.BVCmp("bvugt", bt, tt.BVConst(0x7f, 8)), tt.Eq(bt, tt.BVConst('(', 8)), tt.Eq(bt, tt.BVConst(')', 8)),
+				tt.Eq(bt, tt.BVConst('\\', 8)), tt.Eq(bt, tt.BVConst('*', 8)), tt.Eq(bt, tt.BVConst(0, 8)))
+			if in.branch(boolVal(must), "filter byte needs escaping") {
+				hi := hexDigit(tt.BVOp("bvlshr", bt, tt.BVConst(4, 8)))
+				lo := hexDigit(tt.BVOp("bvand", bt, tt.BVConst(15, 8)))
+				out = concatStr(out, CStr("\\"))
+				out = concatStr(out, strFromValues([]Value{in.fromTerm(hi, u8), in.fromTerm(lo, u8)}))
+			} else {
+				out = concatStr(out, strFromValues([]Value{b}))
+			}
+		}
+		return concatStr(out, CStr(")")), true
+	}
+	return Str{}, false
 }
